@@ -241,6 +241,23 @@ theorem reorderer_success_is_exactly_the_range (fromHeight toHeight first : Nat)
   omega
 
 open BtcVerif.Model.Reorder in
+/-- completeness, for every range: an honest node whose blocks arrive in their turn ends in success with the
+whole range handed out (the other arrival orders are exercised by the correspondence, `reorder.run`) -/
+theorem reorderer_in_order_complete (fromHeight m : Nat) :
+    (run fromHeight (fromHeight + m) 1 ((List.range' 1 m).map (fun k => Ev.blk (honest k)))).res = .done ∧
+    (run fromHeight (fromHeight + m) 1 ((List.range' 1 m).map (fun k => Ev.blk (honest k)))).out =
+      (List.range' 1 m).map honest := by
+  have h := foldl_in_order fromHeight (fromHeight + m) m 0 [] (by omega)
+  simp only [Nat.zero_add, Nat.add_zero, List.nil_append] at h
+  simp only [run, start]
+  have h0 : ({ latest := 1, cur := fromHeight, buf := [], out := [], res := Res.running } : St) =
+      { latest := 0 + 1, cur := fromHeight + 0, buf := [], out := [], res := Res.running } := by simp
+  rw [h0] at *
+  simp only [Nat.zero_add, Nat.add_zero] at *
+  rw [h]
+  simp [finish, BtcVerif.Gen.Guards.blockscan_BlockScanner_streamBlocks_lit0_1]
+
+open BtcVerif.Model.Reorder in
 /-- the theorem discriminates: the variant that stops counting heights (seeded change C16-R6A) reports success
 after two of three blocks when the node serves a sibling of block 2 for height 3 while block 1 is outstanding;
 the library's loop reports the broken link -/
